@@ -76,7 +76,7 @@ func tryReplay(eng *Engine, rep *FnReport, o *Obligation, r *Result, pid string)
 		rf.Note = "no replay driver for this contract"
 		out.note = rf.Note
 	}
-	dir := filepath.Join(verifRoot, "replays", pid)
+	dir := filepath.Join(outRoot(), "replays", pid)
 	os.MkdirAll(dir, 0o755)
 	p := filepath.Join(dir, sanitize(o.Name)+".json")
 	data, _ := json.MarshalIndent(rf, "", " ")
